@@ -13,7 +13,20 @@ from .core import ModelError, norm
 
 
 def cz(x):
-    return norm(x).replace(' ', '').replace('\n', '')
+    """Compact normalised text. Indentation is dropped, but a line that returns to an outer (non-base) block level after a
+    nested block is prefixed with a dedent marker, so that moving a statement into or out of a nested block changes the text."""
+    lines = norm(x).split('\n')
+    if len(lines) == 1:
+        return lines[0].replace(' ', '')
+    out = []
+    prev = base = len(lines[0]) - len(lines[0].lstrip(' '))
+    for ln in lines:
+        ind = len(ln) - len(ln.lstrip(' '))
+        if ind < prev and ind > base:
+            out.append('\u00a6' * ((prev - ind) // 4))
+        out.append(ln.replace(' ', ''))
+        prev = ind
+    return ''.join(out)
 
 
 def czs(src):
